@@ -3,6 +3,7 @@ From Coq Require Import List String ZArith Bool.
 From Pegen Require Import Base.StrUtil Base.Values Runtime.Tokenizer.
 Import ListNotations.
 Open Scope string_scope.
+Notation "x |> f" := (f x) (at level 70, only parsing).
 
 Inductive aexp :=
 | AName (x : string)
@@ -13,6 +14,8 @@ Inductive aexp :=
 | AOr (a b : aexp) | AAnd (a b : aexp)
 | ACall (f : string) (args : list aexp)       (* positional and keyword values, in source order *)
 | AAttr (a : aexp) (field : string)
+| AIndex (a : aexp) (k : nat)               (* a[k] with a constant index *)
+| AJoin (sep : string) (a : aexp)           (* "sep".join(a) *)
 | AUnknown.
 
 (* None = the evaluation raises (NameError for an unbound name, TypeError, AttributeError) *)
@@ -33,12 +36,29 @@ Fixpoint aev (a : aexp) (e : env) : option value :=
                 end
   | AOr a b => match aev a e with Some x => if truthy x then Some x else aev b e | None => None end
   | AAnd a b => match aev a e with Some x => if truthy x then aev b e else Some x | None => None end
+  | ACall "literal_eval" [x] => match aev x e with Some (VStr q) => Some (VStr (strip_quotes q)) | _ => None end
   | ACall f args => option_map (VObj f) ((fix go (l : list aexp) : option (list value) :=
                  match l with [] => Some [] | x :: l' => match aev x e, go l' with Some v, Some r => Some (v :: r) | _, _ => None end end) args)
   | AAttr a f => match aev a e with
                  | Some (VTok t) => if String.eqb f "string" then Some (VStr (tstr t)) else None
+                 | Some (VObj "Rhs" (alts :: _)) => if String.eqb f "alts" then Some alts else None
                  | _ => None
                  end
+  | AIndex a k => match aev a e with
+                  | Some (VTuple l) | Some (VList l) => nth_error l k
+                  | _ => None
+                  end
+  | AJoin sep a => match aev a e with
+                   | Some (VList l) =>
+                       (fix go (l : list value) : option string :=
+                          match l with
+                          | [] => Some ""
+                          | [VStr x] => Some x
+                          | VStr x :: l' => match go l' with Some r => Some (x ++ sep ++ r) | None => None end
+                          | _ => None
+                          end) l |> option_map VStr
+                   | _ => None
+                   end
   | AUnknown => None
   end.
 
